@@ -37,9 +37,27 @@ def install():
     sys.path.insert(0, MIDDLEWARE)
     sys.path.insert(0, SHIMS)
     logging.disable(logging.CRITICAL)
+    _own_sleep()
     import bitcoin.core  # noqa: F401  (must be the shim)
     if not getattr(sys.modules["bitcoin"], "__verif_shim__", False):
         raise RuntimeError("bitcoin package is not the shim")
+
+
+SLEPT = [0.0]
+
+
+def _own_sleep():
+    """time.sleep called from the code under test (whatever name it is imported under) returns at
+    once; everybody else (the pool, the scheduler's own threads) keeps the real one."""
+    import time
+    real = time.sleep
+
+    def sleep(n):
+        if sys._getframe(1).f_code.co_filename.startswith(MIDDLEWARE):
+            SLEPT[0] += n
+            return
+        real(n)
+    time.sleep = sleep
 
 
 class Rng:
